@@ -22,7 +22,7 @@ impl Property for C01 {
         tier.pick(500_000, 10_000_000)
     }
     fn rule(&self) -> String {
-        "vAMM-only deployments (decimals 6-12, reserves 1 unit .. 10^10 units, not round) driven through the real instantiate/execute/query entry points with histories of 1-40 (thorough: 80) swap_input/swap_output calls in both directions, amounts from 1 raw unit to beyond the reserve, plus 'return' swaps that bring the net position back to an earlier value; before 7-8% of the swaps the owner closes and re-opens the market, points the margin-engine setting elsewhere and back, or updates a fee ratio (none of which is a trade: reserves and net position must be exactly what they were). After every accepted swap: floor(x*y/D) non-decreasing (256-bit), base reserve + net position = initial base reserve, and for every earlier state with the same net position and base reserve >= 1 unit the quote reserve is not smaller; a rejected swap leaves the raw storage unchanged. Non-trivial: >= 2 accepted swaps, >= 1 with non-zero division remainder, >= 1 revisit of an earlier net position. Distinct by digest of (reserves, ops).".into()
+        "vAMM-only deployments (decimals 6-12, reserves 1 unit .. 10^10 units, not round; one pool in ten is binary-granular: its quote reserve is a multiple of 2^32 or 2^64 raw units, and one amount class has the same granularity, so that all low words of the intermediates stay zero) driven through the real instantiate/execute/query entry points with histories of 1-40 (thorough: 80) swap_input/swap_output calls in both directions, amounts from 1 raw unit to beyond the reserve, plus 'return' swaps that bring the net position back to an earlier value; before 7-8% of the swaps the owner closes and re-opens the market, points the margin-engine setting elsewhere and back, or updates a fee ratio (none of which is a trade: reserves and net position must be exactly what they were). After every accepted swap: floor(x*y/D) non-decreasing (256-bit), base reserve + net position = initial base reserve, and for every earlier state with the same net position and base reserve >= 1 unit the quote reserve is not smaller; a rejected swap leaves the raw storage unchanged. Non-trivial: >= 2 accepted swaps, >= 1 with non-zero division remainder, >= 1 revisit of an earlier net position. Distinct by digest of (reserves, ops).".into()
     }
     fn assumptions(&self) -> Vec<String> {
         vec![
